@@ -308,6 +308,14 @@ def locate : List Nat → Nat → Nat → Nat × Nat
   | [], i, p => (p, i)
   | k :: ks, i, p => if i < k then (p, i) else locate ks (i - k) (p + 1)
 
+/-- `payoff_vector.min()`-style running minimum -/
+def vecMin (v : List α) : α := v.tail.foldl (fun acc x => if x < acc then x else acc) (v.headD 0)
+
+/-- `PolymatrixGame.range_of_payoffs()` over the flattened head-to-head matrices:
+    `(min over all entries, max over all entries)` -/
+def hRange (entries : List α) : α × α :=
+  (vecMin entries, entries.tail.foldl (fun acc x => if acc < x then x else acc) (entries.headD 0))
+
 /-- `range_of_payoffs()[1] + LOW_AVOIDER` over the flattened matrices -/
 def hPcm (entries : List α) : α :=
   entries.tail.foldl (fun acc x => if acc < x then x else acc) (entries.headD 0) + (1 + 1)
@@ -675,6 +683,13 @@ def handle (toks : List String) : String :=
         else "bad-op"
       | none => "bad-op"
     | _, _ => "bad-op"
+  | "range" :: r =>
+    -- PolymatrixGame.range_of_payoffs(), exact
+    match kvRatMat r "pm" with
+    | some pm =>
+      if pm.flatten.isEmpty then "bad-op"
+      else showRat (hRange pm.flatten).1 ++ "," ++ showRat (hRange pm.flatten).2
+    | none => "bad-op"
   | "howf" :: r =>
     -- polym_lcp_solver, IEEE doubles
     match kvNats r "nums", kvNats r "start", kvFloatMat r "pm", kvInt r "maxiter", kvNat r "fuel" with
